@@ -256,8 +256,36 @@ func applyDamage(rng *rand.Rand, dir string, c *tlc.Container, build *tree) []st
 				log = append(log, "file->dir:"+f.Path)
 			case 8: // replaced by a symlink
 				os.Remove(p)
-				os.Symlink("elsewhere", p)
-				log = append(log, "file->symlink:"+f.Path)
+				switch rng.Intn(3) {
+				case 0: // dangling
+					os.Symlink("elsewhere", p)
+					log = append(log, "file->symlink:"+f.Path)
+				case 1:
+					// a link that RESOLVES to a regular file with exactly the signed content (a copy kept next to the
+					// build): only the kind of the entry is wrong
+					side := dir + "-moved-" + fmt.Sprint(rng.Intn(1<<30))
+					os.WriteFile(side, build.Files[f.Path], 0644)
+					os.Symlink(side, p)
+					log = append(log, "file->symlink-to-same-content:"+f.Path)
+				default:
+					// a link to another file of the build (same content if there is a duplicate, e.g. another empty file)
+					target := ""
+					for _, g := range c.Files {
+						if g.Path != f.Path && bytes.Equal(build.Files[g.Path], build.Files[f.Path]) {
+							target = g.Path
+							break
+						}
+					}
+					if target == "" {
+						side := dir + "-moved-" + fmt.Sprint(rng.Intn(1<<30))
+						os.WriteFile(side, build.Files[f.Path], 0644)
+						os.Symlink(side, p)
+					} else {
+						rel, _ := filepath.Rel(filepath.Dir(p), filepath.Join(dir, filepath.FromSlash(target)))
+						os.Symlink(rel, p)
+					}
+					log = append(log, "file->symlink-to-same-content:"+f.Path)
+				}
 			}
 		case kind == 9 && len(c.Symlinks) > 0:
 			s := c.Symlinks[rng.Intn(len(c.Symlinks))]
